@@ -38,6 +38,28 @@ pub fn generichash(msg: &[u8], key: &[u8], outlen: usize) -> (Impls, Option<Vec<
     if outlen == 64 && key.is_empty() {
         v.push(("GenericHash<32,64>::hash_to_vec".into(), dryoc::generichash::GenericHash::<32, 64>::hash_to_vec::<_, [u8; 32]>(&msg.to_vec(), None).map_err(es)));
     }
+    // the object API for every (key length, output length) pair it is instantiated with below
+    macro_rules! gh_obj {
+        ($k:literal, $o:literal) => {
+            if outlen == $o && (key.len() == $k || key.is_empty()) {
+                use dryoc::generichash::GenericHash;
+                let kk: Option<StackByteArray<$k>> = if key.is_empty() { None } else { Some(StackByteArray::<$k>::try_from(key).unwrap()) };
+                v.push((format!("GenericHash<{},{}>::hash", $k, $o), GenericHash::<$k, $o>::hash::<_, _, StackByteArray<$o>>(msg, kk.as_ref()).map(|x| x.to_vec()).map_err(es)));
+                v.push((format!("GenericHash<{},{}>::new/update/finalize", $k, $o), (|| { let mut h = GenericHash::<$k, $o>::new(kk.as_ref()).map_err(es)?; h.update(msg);
+                    let o: StackByteArray<$o> = h.finalize().map_err(es)?; Ok(o.to_vec()) })()));
+                v.push((format!("GenericHash<{},{}>::new/update x2/finalize_to_vec", $k, $o), (|| { let mut h = GenericHash::<$k, $o>::new(kk.as_ref()).map_err(es)?;
+                    let cut = msg.len() / 3; h.update(&msg[..cut]); h.update(&msg[cut..]); h.finalize_to_vec().map_err(es) })()));
+            }
+        };
+    }
+    gh_obj!(16, 16); gh_obj!(32, 32); gh_obj!(64, 64); gh_obj!(32, 64); gh_obj!(64, 32); gh_obj!(33, 17); gh_obj!(16, 64); gh_obj!(64, 16);
+    if outlen == 32 && (key.len() == 32 || key.is_empty()) {
+        use dryoc::generichash::GenericHash;
+        let kk: Option<StackByteArray<32>> = if key.is_empty() { None } else { Some(StackByteArray::<32>::try_from(key).unwrap()) };
+        v.push(("GenericHash::hash_with_defaults".into(), GenericHash::hash_with_defaults::<_, _, StackByteArray<32>>(msg, kk.as_ref()).map(|x| x.to_vec()).map_err(es)));
+        v.push(("GenericHash::hash_with_defaults_to_vec".into(), GenericHash::hash_with_defaults_to_vec(msg, kk.as_ref()).map_err(es)));
+        v.push(("GenericHash::new_with_defaults/update/finalize_to_vec".into(), (|| { let mut h = GenericHash::new_with_defaults(kk.as_ref()).map_err(es)?; h.update(msg); h.finalize_to_vec().map_err(es) })()));
+    }
     let mut r = vec![0u8; outlen];
     let rc = unsafe { so::crypto_generichash(r.as_mut_ptr(), outlen, msg.as_ptr(), msg.len() as u64, if key.is_empty() { std::ptr::null() } else { key.as_ptr() }, key.len()) };
     (v, if rc == 0 { Some(r) } else { None })
@@ -46,6 +68,15 @@ pub fn sha512(msg: &[u8]) -> (Impls, Option<Vec<u8>>) {
     let mut v: Impls = vec![];
     v.push(("crypto_hash_sha512".into(), { let mut o = [0u8; 64]; ch::crypto_hash_sha512(&mut o, msg); Ok(o.to_vec()) }));
     v.push(("Sha512::compute_to_vec".into(), Ok(dryoc::sha512::Sha512::compute_to_vec(msg))));
+    {
+        use dryoc::sha512::Sha512;
+        v.push(("Sha512::compute".into(), Ok(Sha512::compute::<_, StackByteArray<64>>(msg).to_vec())));
+        v.push(("Sha512::compute_into_bytes".into(), { let mut o = [0xA5u8; 64]; Sha512::compute_into_bytes(&mut o, msg); Ok(o.to_vec()) }));
+        v.push(("Sha512::new/update/finalize".into(), { let mut h = Sha512::new(); h.update(msg); let o: StackByteArray<64> = h.finalize(); Ok(o.to_vec()) }));
+        v.push(("Sha512::default/update x2/finalize_into_bytes".into(), { let mut h = Sha512::default(); let cut = msg.len() / 2; h.update(&msg[..cut]); h.update(&msg[cut..]);
+            let mut o = [0x5Au8; 64]; h.finalize_into_bytes(&mut o); Ok(o.to_vec()) }));
+        v.push(("Sha512::new/update/finalize_to_vec".into(), { let mut h = Sha512::new(); h.update(msg); Ok(h.finalize_to_vec()) }));
+    }
     let mut r = vec![0u8; 64];
     unsafe { so::crypto_hash_sha512(r.as_mut_ptr(), msg.as_ptr(), msg.len() as u64) };
     (v, Some(r))
@@ -54,6 +85,14 @@ pub fn auth(key: &[u8; 32], msg: &[u8]) -> (Impls, Option<Vec<u8>>) {
     let mut v: Impls = vec![];
     v.push(("crypto_auth".into(), { let mut o = [0u8; 32]; ca::crypto_auth(&mut o, msg, key); Ok(o.to_vec()) }));
     v.push(("Auth::compute_to_vec".into(), Ok(dryoc::auth::Auth::compute_to_vec(*key, &msg.to_vec()))));
+    {
+        use dryoc::auth::Auth;
+        let m = msg.to_vec();
+        v.push(("Auth::compute".into(), Ok(Auth::compute::<_, _, StackByteArray<32>>(StackByteArray::from(key), &m).to_vec())));
+        v.push(("Auth::new/update/finalize".into(), { let mut a = Auth::new(*key); a.update(&m); let o: StackByteArray<32> = a.finalize(); Ok(o.to_vec()) }));
+        v.push(("Auth::new/update x2/finalize_to_vec".into(), { let mut a = Auth::new(StackByteArray::from(key)); let cut = m.len() / 2; a.update(&m[..cut].to_vec()); a.update(&m[cut..].to_vec()); Ok(a.finalize_to_vec()) }));
+        v.push(("crypto_auth_init/update/final".into(), { let mut st = ca::crypto_auth_init(key); ca::crypto_auth_update(&mut st, msg); let mut o = [0u8; 32]; ca::crypto_auth_final(st, &mut o); Ok(o.to_vec()) }));
+    }
     let mut r = vec![0u8; 32];
     unsafe { so::crypto_auth(r.as_mut_ptr(), msg.as_ptr(), msg.len() as u64, key.as_ptr()) };
     (v, Some(r))
@@ -62,6 +101,13 @@ pub fn onetimeauth(key: &[u8; 32], msg: &[u8]) -> (Impls, Option<Vec<u8>>) {
     let mut v: Impls = vec![];
     v.push(("crypto_onetimeauth".into(), { let mut o = [0u8; 16]; co::crypto_onetimeauth(&mut o, msg, key); Ok(o.to_vec()) }));
     v.push(("OnetimeAuth::compute_to_vec".into(), Ok(dryoc::onetimeauth::OnetimeAuth::compute_to_vec(*key, &msg.to_vec()))));
+    {
+        use dryoc::onetimeauth::OnetimeAuth;
+        let m = msg.to_vec();
+        v.push(("OnetimeAuth::compute".into(), Ok(OnetimeAuth::compute::<_, _, StackByteArray<16>>(StackByteArray::from(key), &m).to_vec())));
+        v.push(("OnetimeAuth::new/update/finalize".into(), { let mut a = OnetimeAuth::new(*key); a.update(&m); let o: StackByteArray<16> = a.finalize(); Ok(o.to_vec()) }));
+        v.push(("OnetimeAuth::new/update x2/finalize_to_vec".into(), { let mut a = OnetimeAuth::new(StackByteArray::from(key)); let cut = m.len() / 2; a.update(&m[..cut].to_vec()); a.update(&m[cut..].to_vec()); Ok(a.finalize_to_vec()) }));
+    }
     v.push(("crypto_onetimeauth_init/update/final".into(), { let mut st = co::crypto_onetimeauth_init(key); co::crypto_onetimeauth_update(&mut st, msg); let mut o = [0u8; 16]; co::crypto_onetimeauth_final(st, &mut o); Ok(o.to_vec()) }));
     let mut r = vec![0u8; 16];
     unsafe { so::crypto_onetimeauth(r.as_mut_ptr(), msg.as_ptr(), msg.len() as u64, key.as_ptr()) };
@@ -103,6 +149,17 @@ pub fn kdf(outlen: usize, id: u64, ctx: &[u8; 8], key: &[u8; 32]) -> (Impls, Opt
         let k: dryoc::kdf::Kdf<StackByteArray<32>, StackByteArray<8>> = dryoc::kdf::Kdf::from_parts(StackByteArray::from(key), StackByteArray::from(ctx));
         v.push(("Kdf::derive_subkey_to_vec".into(), k.derive_subkey_to_vec(id).map_err(es)));
     }
+    macro_rules! kdf_obj {
+        ($n:literal) => {
+            if outlen == $n {
+                let k: dryoc::kdf::Kdf<StackByteArray<32>, StackByteArray<8>> = dryoc::kdf::Kdf::from_parts(StackByteArray::from(key), StackByteArray::from(ctx));
+                v.push((format!("Kdf::derive_subkey::<StackByteArray<{}>>", $n), k.derive_subkey::<StackByteArray<$n>>(id).map(|x| x.to_vec()).map_err(es)));
+                let k: dryoc::kdf::Kdf<[u8; 32], [u8; 8]> = dryoc::kdf::Kdf::from_parts(*key, *ctx);
+                v.push((format!("Kdf<[u8;32],[u8;8]>::derive_subkey::<[u8;{}]>", $n), k.derive_subkey::<[u8; $n]>(id).map(|x| x.to_vec()).map_err(es)));
+            }
+        };
+    }
+    kdf_obj!(32);
     let mut r = vec![0u8; outlen];
     let rc = unsafe { so::crypto_kdf_derive_from_key(r.as_mut_ptr(), outlen, id, ctx.as_ptr() as *const _, key.as_ptr()) };
     (v, if rc == 0 { Some(r) } else { None })
@@ -226,7 +283,7 @@ pub fn cmd_sweep_c07(args: &[String]) {
         for (fi, msg) in fillers.iter().enumerate() {
             let fname = ["random", "0xff", "zero"][fi]; let d = json!({"len": len, "filler": fname, "seed": seed});
             // generic hash: every digest/key extreme plus one random pair per length
-            let pairs: Vec<(usize, usize)> = if fi == 0 { vec![(32, 0), (16, 0), (64, 0), (16, 16), (64, 64), (32, 32), (17, 33), (outl, klen), (outl, 0)] } else { vec![(32, 0), (64, 64)] };
+            let pairs: Vec<(usize, usize)> = if fi == 0 { vec![(32, 0), (16, 0), (64, 0), (16, 16), (64, 64), (32, 32), (17, 33), (64, 32), (32, 64), (64, 16), (16, 64), (outl, klen), (outl, 0)] } else { vec![(32, 0), (64, 64)] };
             for (ol, kl) in pairs {
                 let (i, s) = generichash(msg, &gk[..kl], ol);
                 compare(&mut rep, "generichash", i, &[("libsodium", s.as_ref())], json!({"len": len, "outlen": ol, "keylen": kl, "filler": fi, "seed": seed}));
@@ -466,10 +523,29 @@ pub fn cmd_sweep_c05(args: &[String]) {
             let kp: dryoc::kx::KeyPair = dryoc::keypair::KeyPair { public_key: StackByteArray::from(&me_pk), secret_key: StackByteArray::from(&me_sk) };
             let sess: Result<dryoc::kx::Session<StackByteArray<32>>, _> = if role == "client" { dryoc::kx::Session::new_client(&kp, &StackByteArray::from(&peer)) } else { dryoc::kx::Session::new_server(&kp, &StackByteArray::from(&peer)) };
             let sess2: Result<dryoc::kx::Session<StackByteArray<32>>, _> = if role == "client" { kp.kx_new_client_session(&StackByteArray::from(&peer)) } else { kp.kx_new_server_session(&StackByteArray::from(&peer)) };
-            rep.evaluations += 2;
-            for (nm, s) in [("Session::new", sess), ("KeyPair::kx_new_session", sess2)] {
+            let sess3: Result<dryoc::kx::Session<StackByteArray<32>>, _> = if role == "client" { dryoc::kx::Session::new_client_with_defaults(&kp, &StackByteArray::from(&peer)) } else { dryoc::kx::Session::new_server_with_defaults(&kp, &StackByteArray::from(&peer)) };
+            let akp: dryoc::keypair::KeyPair<[u8; 32], [u8; 32]> = dryoc::keypair::KeyPair { public_key: me_pk, secret_key: me_sk };
+            let sess4: Result<dryoc::kx::Session<StackByteArray<32>>, _> = if role == "client" { dryoc::kx::Session::new_client(&akp, &peer) } else { dryoc::kx::Session::new_server(&akp, &peer) };
+            rep.evaluations += 4;
+            // every accessor of the session object: (rx_as_slice, tx_as_slice, rx_as_array, tx_as_array, into_parts)
+            fn proj<K: dryoc::types::ByteArray<32> + zeroize::Zeroize>(s: dryoc::kx::Session<K>) -> Vec<Vec<u8>> {
+                let mut v = vec![s.rx_as_slice().to_vec(), s.tx_as_slice().to_vec(), s.rx_as_array().to_vec(), s.tx_as_array().to_vec()];
+                let (rx, tx) = s.into_parts(); v.push(rx.as_slice().to_vec()); v.push(tx.as_slice().to_vec()); v
+            }
+            let mut all = vec![("Session::new", sess.map(proj)), ("KeyPair::kx_new_session", sess2.map(proj)), ("Session::new_with_defaults", sess3.map(proj)), ("Session::new over [u8;32] keys", sess4.map(proj))];
+            #[cfg(feature = "nightly")]
+            {
+                use dryoc::protected::{HeapByteArray, NewLockedFromSlice, Locked};
+                let lkp: dryoc::kx::protected::LockedKeyPair = dryoc::keypair::KeyPair { public_key: HeapByteArray::<32>::from_slice_into_locked(&me_pk).unwrap(), secret_key: HeapByteArray::<32>::from_slice_into_locked(&me_sk).unwrap() };
+                let lpeer = HeapByteArray::<32>::from_slice_into_locked(&peer).unwrap();
+                let ls: Result<dryoc::kx::Session<Locked<HeapByteArray<32>>>, _> = if role == "client" { dryoc::kx::Session::new_client(&lkp, &lpeer) } else { dryoc::kx::Session::new_server(&lkp, &lpeer) };
+                rep.evaluations += 1;
+                all.push(("Session<Locked>::new over locked keys", ls.map(proj)));
+            }
+            let want = vec![srx.to_vec(), stx.to_vec(), srx.to_vec(), stx.to_vec(), srx.to_vec(), stx.to_vec()];
+            for (nm, s) in all {
                 match (s, sod_ok) {
-                    (Ok(s), true) => { if s.rx_as_slice() != srx || s.tx_as_slice() != stx { rep.fail(&format!("{} keys differ from libsodium", nm), d.clone()); } }
+                    (Ok(got), true) => { if got != want { rep.fail(&format!("{} keys differ from libsodium", nm), d.clone()); } }
                     (Err(_), false) => {}
                     (Ok(_), false) => rep.fail(&format!("{} accepts a peer key whose shared secret is all-zero", nm), d.clone()),
                     (Err(_), true) => rep.fail(&format!("{} rejects a peer key libsodium accepts", nm), d.clone()),
@@ -543,6 +619,19 @@ pub fn cmd_sweep_c13(args: &[String]) {
         let skp2: dryoc::sign::SigningKeyPair<StackByteArray<32>, StackByteArray<64>> = dryoc::sign::SigningKeyPair::from_secret_key(StackByteArray::from(&esk));
         rep.evaluations += 3;
         if dp != ep || dsk != esk { rep.fail("crypto_sign_seed_keypair differs from libsodium", json!({"i": i})); }
+        {
+            // in-place and per-curve entry points, into buffers that are not zero beforehand
+            let (mut ip, mut isk) = ([0xA5u8; 32], [0x5Au8; 64]);
+            csg::crypto_sign_seed_keypair_inplace(&mut ip, &mut isk, &s);
+            rep.evaluations += 1;
+            if ip != ep || isk != esk { rep.fail("crypto_sign_seed_keypair_inplace differs from libsodium", json!({"i": i})); }
+            // the key pair object over other containers
+            let akp: dryoc::sign::SigningKeyPair<[u8; 32], [u8; 64]> = dryoc::sign::SigningKeyPair::from_seed(&s);
+            let vkp: dryoc::sign::SigningKeyPair<StackByteArray<32>, StackByteArray<64>> = dryoc::sign::SigningKeyPair::from_seed(&s.to_vec());
+            rep.evaluations += 2;
+            if akp.public_key != ep || akp.secret_key != esk { rep.fail("SigningKeyPair<[u8;32],[u8;64]>::from_seed differs from libsodium", json!({"i": i})); }
+            if vkp.public_key.as_slice() != ep || vkp.secret_key.as_slice() != esk { rep.fail("SigningKeyPair::from_seed(Vec seed) differs from libsodium", json!({"i": i})); }
+        }
         if skp.public_key.as_slice() != ep || skp.secret_key.as_slice() != esk { rep.fail("SigningKeyPair::from_seed differs from libsodium", json!({"i": i})); }
         if skp2.public_key.as_slice() != ep || skp2.secret_key.as_slice() != esk { rep.fail("SigningKeyPair::from_secret_key differs from libsodium", json!({"i": i})); }
         // Ed25519 -> X25519
